@@ -86,22 +86,38 @@ def checker(ctx, world):
     is_mode = lambda a, name: a.op == "cmp" and a.opname == "In" and a.l.op == "const" and a.l.value == name and a.r is modes
     is_deeper = lambda a: a.op == "cmp" and a.opname == "Lt" and a.l.op == "const" and a.l.value == 1 and a.r is order  # order > 1
     for mode, chk, maker, pick in (("fwd", "check_jvp", "autograd.core.make_jvp", "jvp"), ("rev", "check_vjp", "autograd.core.make_vjp", "vjp")):
+        import itertools as _it
+
+        def executes(fs, val):
+            """does an effect guarded by the facts fs run under the valuation (fwd requested, rev requested, order > 1)?"""
+            for a, p in fs:
+                if is_mode(a, "fwd"):
+                    k = 0
+                elif is_mode(a, "rev"):
+                    k = 1
+                elif is_deeper(a):
+                    k = 2
+                else:
+                    return None
+                if val[k] != p:
+                    return False
+            return True
+
+        mi = 0 if mode == "fwd" else 1
         direct = [(fs, e) for fs, e in effs if is_call_to(e, f"{TU}.{chk}")]
-        ok_direct = False
-        for fs, e in direct:
-            if len(e.args) == 2 and e.args[0] is f and e.args[1] is x and not e.kw and len(fs) == 1 and is_mode(fs[0][0], mode) and fs[0][1] is True:
-                ok_direct = True
+        ok_direct = bool(direct) and all(len(e.args) == 2 and e.args[0] is f and e.args[1] is x and not e.kw for fs, e in direct)
+        for val in _it.product((True, False), repeat=3):
+            runs = [executes(fs, val) for fs, e in direct]
+            if any(r_ is None for r_ in runs) or sum(1 for r_ in runs if r_) != (1 if val[mi] else 0):
+                ok_direct = False
         _ok(ctx, "A18.modes", f"check_grads: '{mode}' in modes -> {chk}(f, x)", ok_direct, loc, f"{TU}.check_grads:{mode}:first-order", f"check_grads does not call {chk}(f, x) exactly when '{mode}' is requested", f"a primitive whose {'JVP' if mode == 'fwd' else 'VJP'} rule is wrong: check_grads(f, modes=['{mode}']) passes")
         # recursion: check_grads(<derivative closure of this mode>, (0, 1), modes, order=order - 1)(x, v)
         ok_rec = False
+        good_calls = []
         for fs, e in effs:
             if e.op != "call" or not is_call_to(e.fn, f"{TU}.check_grads"):
                 continue
             inner = e.fn
-            pol_mode = [p for a, p in fs if is_mode(a, mode)]
-            pol_deep = [p for a, p in fs if is_deeper(a)]
-            if pol_mode != [True] or pol_deep != [True] or len(fs) != 2:
-                continue
             clo, pre, prekw = ev.as_closure(inner.args[0]) if inner.args else (None, None, None)
             if clo is None or pre or prekw:
                 continue
@@ -121,7 +137,13 @@ def checker(ctx, world):
             dec_ok = order_arg is not None and order_arg.op == "bin" and order_arg.opname == "Sub" and order_arg.l is order and order_arg.r.op == "const" and order_arg.r.value == 1
             both_args = argnum_arg is not None and argnum_arg.op in ("tuple", "list") and [getattr(z, "value", None) for z in argnum_arg.elts] == [0, 1]
             at_x = len(e.args) == 2 and e.args[0] is x
-            ok_rec = bool(modes_arg is modes and dec_ok and both_args and at_x)
+            if modes_arg is modes and dec_ok and both_args and at_x:
+                good_calls.append(fs)
+        ok_rec = bool(good_calls)
+        for val in _it.product((True, False), repeat=3):
+            runs = [executes(fs, val) for fs in good_calls]
+            if any(r_ is None for r_ in runs) or sum(1 for r_ in runs if r_) != (1 if (val[mi] and val[2]) else 0):
+                ok_rec = False
         _ok(ctx, "A18.modes", f"check_grads: order > 1 recurses on the {pick} closure with the same modes and order - 1", ok_rec, loc, f"{TU}.check_grads:{mode}:recursion", f"for order > 1 the '{mode}' branch does not recurse with check_grads(<{pick} of f>, (0, 1), modes, order=order - 1)(x, v)", f"a primitive whose rule is right but whose rule's own derivative is wrong: second-order check in mode '{mode}' passes")
     # ------------------------------------------------------------------ check_vjp
     r, sy, m, fn, sc = eval_function(world, TU, "check_vjp")
